@@ -225,8 +225,11 @@ func (g *gen) rule(src string, pool *[][]Tok) Rule {
 
 	if g.rng.Intn(6) == 0 { // a second route, with its own path_params
 		e2 := g.expr()
-		if shapeKey(e2) == shapeKey(e) {
-			// the same path twice in one rule is not a meaningful definition (left open)
+		if g.p.Mutations && g.rng.Intn(3) == 0 {
+			// the same path a second time (with path_params of its own when the profile has them): one
+			// rule, two entries at the same place of the index
+			e2 = append([]Tok{}, e...)
+		} else if shapeKey(e2) == shapeKey(e) {
 			e2 = append(e2, Tok{T: "lit", V: g.pick(g.lits)})
 			if last := e2[len(e2)-2]; last.T == "free" {
 				e2 = e2[:len(e2)-1]
